@@ -152,7 +152,8 @@ Definition wf_attr (a : attr) (after : list Z) : Prop :=
   match a with
   | ANone w k => w <> [] /\ all_ws w /\ k <> [] /\ Forall keychar k
   | AVal w k w2 w3 v => w <> [] /\ all_ws w /\ k <> [] /\ Forall keychar k /\ all_ws w2 /\ all_ws w3 /\
-                        (unquoted_value v after \/ quoted_value v)
+                        (unquoted_value v after \/ quoted_value v \/ (cut_quoted_value v /\ after = []))
+                        (* the last: a quoted value cut by the end of input (only possible in ICutTag) *)
   end.
 
 Fixpoint wf_attrs (attrs : list attr) (tail : list Z) : Prop :=
@@ -262,7 +263,9 @@ Proof.
     + rewrite view_bytes_lower_view by (cbn [so sn]; lia).
       rewrite (at_input_view d l pre _ (len w) (len k) Hat) by lia. rewrite <- app_assoc, (slice_mid w k). reflexivity.
   - destruct Hwf as (W1 & W2 & K1 & K2 & W3 & W4 & Hv).
-    assert (Hv' : unquoted_value v (f0 ++ rest) \/ quoted_value v) by (destruct Hv; [left; apply unquoted_value_app; assumption|right; assumption]).
+    assert (Hv' : unquoted_value v (f0 ++ rest) \/ quoted_value v \/ (cut_quoted_value v /\ f0 ++ rest = [])).
+    { destruct Hv as [Hv|[Hv|[Hv Haf]]]; [left; apply unquoted_value_app; assumption|right; left; assumption|].
+      right. right. split; [exact Hv|]. subst f0. destruct Hne as [Hne| ->]; [congruence|reflexivity]. }
     assert (Hat' : at_input d l pre (w ++ k ++ w2 ++ 61 :: w3 ++ v ++ f0 ++ rest)).
     { replace (w ++ k ++ w2 ++ 61 :: w3 ++ v ++ f0 ++ rest) with ((w ++ k ++ w2 ++ 61 :: w3 ++ v) ++ f0 ++ rest); [exact Hat|].
       rewrite <- ?app_assoc. cbn [app]. rewrite <- ?app_assoc. reflexivity. }
@@ -1201,7 +1204,7 @@ Proof.
     split; [eexists; split; vm_compute; reflexivity|]. split; [constructor|].
     cbn [wf_attrs wf_attr]. split.
     - split; [discriminate|]. split; [repeat constructor|]. split; [discriminate|]. split; [repeat constructor; vm_compute; repeat split; discriminate|].
-      split; [constructor|]. split; [constructor|]. right. exists 39, [99]. split; [reflexivity|]. split; [tauto|repeat constructor; discriminate].
+      split; [constructor|]. split; [constructor|]. right. left. exists 39, [99]. split; [reflexivity|]. split; [tauto|repeat constructor; discriminate].
     - split; [|exact I]. split; [discriminate|]. split; [repeat constructor|]. split; [discriminate|]. repeat constructor; vm_compute; repeat split; discriminate. }
   split; [|split; [intros _; reflexivity|split; [discriminate|]]].
   { cbn [wf_item]. split; [discriminate|repeat constructor; discriminate]. }
@@ -1314,7 +1317,7 @@ Proof.
     cbn [wf_item]. split; [eexists _, _; split; reflexivity|]. split; [repeat constructor; vm_compute; repeat split; discriminate|].
     split; [eexists; split; vm_compute; reflexivity|]. cbn [wf_attrs wf_attr]. split.
     + split; [discriminate|]. split; [repeat constructor|]. split; [discriminate|]. split; [repeat constructor; vm_compute; repeat split; discriminate|].
-      split; [constructor|]. split; [constructor|]. right. exists 39, [99]. split; [reflexivity|]. split; [tauto|repeat constructor; discriminate].
+      split; [constructor|]. split; [constructor|]. right. left. exists 39, [99]. split; [reflexivity|]. split; [tauto|repeat constructor; discriminate].
     + split; [|exact I]. split; [discriminate|]. split; [repeat constructor|]. split; [discriminate|]. repeat constructor; vm_compute; repeat split; discriminate.
 Qed.
 
@@ -1332,4 +1335,18 @@ Proof.
   split; [discriminate|]. split; [discriminate|]. split; [|split; [discriminate|split; [reflexivity|exact I]]].
   cbn [wf_item]. split; [eexists _, _; split; reflexivity|]. split; [repeat constructor; vm_compute; repeat split; discriminate|].
   split; [vm_compute; reflexivity|]. split; [vm_compute; reflexivity|]. split; [right; eexists _, _; split; [reflexivity|left; reflexivity]|vm_compute; reflexivity].
+Qed.
+
+(* non-vacuity of a tag cut inside a quoted attribute value: <a B=Qc d with Q a double quote *)
+Example html_wellformed_cut_quoted_nonvacuous :
+  let doc := [ ICutTag [97] [AVal [32] [66] [] [] [34; 99; 32; 100]] ] in
+  wf_doc doc /\ exists tr, run no_tmpl 3 (new_lexer (doc_bytes doc)) = Ok tr /\ map observe tr = doc_obs doc ++ [mkObs ErrorT [] [] []].
+Proof.
+  split; [|eexists; split; vm_compute; reflexivity]. cbn [wf_doc is_text is_plain].
+  split; [|split; [discriminate|split; [reflexivity|exact I]]].
+  cbn [wf_item]. split; [eexists _, _; split; reflexivity|]. split; [repeat constructor; vm_compute; repeat split; discriminate|].
+  split; [eexists; split; vm_compute; reflexivity|]. cbn [wf_attrs wf_attr]. split; [|exact I].
+  split; [discriminate|]. split; [repeat constructor|]. split; [discriminate|]. split; [repeat constructor; vm_compute; repeat split; discriminate|].
+  split; [constructor|]. split; [constructor|]. right. right. split; [|reflexivity].
+  exists 34, [99; 32; 100]. split; [reflexivity|]. split; [tauto|repeat constructor; discriminate].
 Qed.
